@@ -178,12 +178,26 @@ impl Compiler
 			let declaration = self.typer.analyze(declaration);
 			let declaration = self.analyzer.analyze(declaration);
 			self.linter.lint(&declaration);
+			let constant_name = match &declaration
+			{
+				common::Declaration::Constant { name, .. } =>
+				{
+					Some(name.clone())
+				}
+				_ => None,
+			};
 			let resolved = resolver::resolve(declaration);
 			if let Ok(declaration) = &resolved
 			{
 				// If code generation fails, bail out.
 				self.generator.declare(&declaration)?;
 				self.fetch_declared_constants(&declaration);
+			}
+			else if let Some(name) = constant_name
+			{
+				// This constant has no value, hence neither do constants
+				// that depend on it and they cannot be generated either.
+				self.typer.poison_constant(&name);
 			}
 			Ok(resolver::accumulate(acc, resolved))
 		})
